@@ -10,14 +10,16 @@ RULE = ("source texts: (a) every string over the alphabet {' \" \\ # f { } a new
         "every prefix spelling, nested replacement fields, nested same-quote literals, conversions, format specs, "
         "doubled braces, unclosed literals); (c) .py files of the repository under test.  Distinct by text; "
         "non-trivial = contains at least one quote or '#'")
-EXPLANATION = ("theorems (every input text, list of code points): the scanner terminates with a result (fuel bound "
-               "proved), substituting the literals back into the stripped items and into the rendered text "
-               "(re.sub of prefix+digits+'_', prefix absent from the input) reproduces the input exactly, and on "
-               "texts without f-string prefixes the kept/removed classification equals a character-level reference "
-               "tokenizer (Python's string/comment lexical rules).  Correspondence: extracted model == real "
-               "strip_string_literals output (stripped text and literal dict) on all cases; losslessness re-checked "
-               "with re.sub; completeness checked against Python's tokenize on sources accepted by ast.parse.  "
-               "partial: completeness inside f-strings is only tested (and refuted: F21), not proved.")
+EXPLANATION = ("theorems, for every input text (list of code points) and both model variants: the scanner terminates with "
+               "a result (fuel bound S(length) proved sufficient, no impossible token), substituting the literals back "
+               "into the stripped items, and into the rendered text by re.sub(prefix+digits+'_') when the prefix does "
+               "not occur in the input, reproduces the input exactly; on texts without f-string prefixes the kept/removed "
+               "classification equals, position by position, a character-level reference tokenizer (Python's string/"
+               "comment lexical rules).  Correspondence: extracted model == real strip_string_literals output (stripped "
+               "text and literal dict) on all cases; losslessness re-checked with re.sub; completeness checked against "
+               "Python's tokenize on sources accepted by ast.parse; the reference tokenizer itself compared with tokenize.  "
+               "partial: completeness inside f-strings is only tested, and refuted by three witness theorems (F21: "
+               "upper-case/fr prefixes, '#'/quote in a format spec, f flag carried over an empty triple-quoted literal).")
 TRUSTED = ["Python 3.12 tokenize + ast.parse as the oracle for which characters are string-literal/comment bodies",
            "Python re.sub as the definition of 'substituting the labels back'",
            "regex semantics (leftmost match, ordered alternation, greedy '+') transcribed by hand into M_Strip.find"]
@@ -25,8 +27,15 @@ ASSUMPTIONS = ["the label prefix '__Pyx_L' does not occur in the input text (nee
                "format-spec characters of f-strings are code by design (kept by the stripper's own tests); they are neither "
                "required to be stripped nor to be kept"]
 
-# False = the code as it is: (?P<fstring> f )? ;  True = after proposed_fixes/C47-fstring_prefix_not_lowercase_f.diff
+# model variant flags.  False = the code as it is.
+# FIXP: True after proposed_fixes/C47-fstring_prefix_not_lowercase_f.diff  ((?P<fstring> f )? -> [fF][rR]?)
+# FIXE: True after proposed_fixes/C47-fstring_flag_after_empty_triple.diff (is_fstring dropped after '' '' '')
 FIXP = False
+FIXE = False
+if os.environ.get("C47_FIXP") in ("0", "1"):      # testing the proposed fixes in a scratch worktree
+    FIXP = os.environ["C47_FIXP"] == "1"
+if os.environ.get("C47_FIXE") in ("0", "1"):
+    FIXE = os.environ["C47_FIXE"] == "1"
 
 PREFIX = "__Pyx_L"
 LABEL_RE = re.compile(r"__Pyx_L[0-9]+_")
@@ -60,7 +69,7 @@ def run_impl(ctx, inputs, tag):
 def run_model(ctx, inputs):
     model = ctx.model("strip")
     enc = [(",".join(str(ord(c)) for c in s) or "-") for s in inputs]
-    res = model.batch(["strip %d %s" % (1 if FIXP else 0, e) for e in enc] + ["ref " + e for e in enc])
+    res = model.batch(["strip %d %d %s" % (1 if FIXP else 0, 1 if FIXE else 0, e) for e in enc] + ["ref " + e for e in enc])
     n = len(inputs)
     return [parse_model(x) for x in res[:n]], res[n:]
 
@@ -122,7 +131,8 @@ def tokenize_bodies(src):
     def off(rc):
         return starts[rc[0] - 1] + rc[1] if rc[0] - 1 < len(starts) else len(src)
     body = set()
-    feats = {"fprefix_other": False, "spec_special": False, "fstring": False}
+    feats = {"fprefix_other": False, "spec_special": False, "fstring": False,
+             "f_empty_triple_run": re.search(r"[fF][rR]?('{7,}|\"{7,})", src) is not None}
     stack = []          # per open f-string: [field depth, end offset of previous token]
     try:
         with warnings.catch_warnings():
@@ -179,6 +189,8 @@ def classify(src, feats):
     """finding class from the input text (features of its token stream)"""
     if feats and feats["spec_special"]:
         return "fstring_format_spec_hash_or_quote"
+    if feats and feats["f_empty_triple_run"]:
+        return "fstring_flag_after_empty_triple"
     if feats and feats["fprefix_other"]:
         return "fstring_prefix_not_lowercase_f"
     return "literal_char_left"
@@ -323,7 +335,7 @@ FIXED_CASES = [
     's = f"""{x:#x}\nabc"""\n', 'a = f"{x:\'^10}"\nb = \'lit\'\n', 'a = f"{x:#x}"\nb = 1\n',
     "f'''{x # c\n}'''\n", "'abc", "f'abc{x", '"""a', "x = '''a''''\n", "a\\\n'b'\n", "'a\\\nb'\n",
     "f'{x!r:>{w}}' 'y'\n", "f'{ {1:2}[1] }' \"z\"\n", "f\"{'}'}\" '{'\n", "bf'x' + uf\"y\"\n",
-    "f'{x}}' '}'\n", "f'}' 'a'\n", "f'{{' 'a'\n", "'\\\\\\\\' 'a'\n", "'\\\\\\\\\\' 'a'\n",
+    "f'{x}}' '}'\n", "x = f''''''' {}'\n", "x = f\"\"\"\"\"\"\"\"\"{y}\"\"\" '{}'\n", "f''''''''''{x}'''\n", "f'}' 'a'\n", "f'{{' 'a'\n", "'\\\\\\\\' 'a'\n", "'\\\\\\\\\\' 'a'\n",
     "\u00e9 = '\u00fc\u4e2d' # \U0001F600\n",
 ]
 
@@ -341,6 +353,8 @@ def stratum_of(src, feats, valid):
         return "valid/untokenizable"
     if feats["spec_special"]:
         return "valid/fstring-spec-special"
+    if feats["f_empty_triple_run"]:
+        return "valid/fstring-empty-triple-run"
     if feats["fprefix_other"]:
         return "valid/fstring-other-prefix"
     if feats["fstring"]:
@@ -464,7 +478,7 @@ def run(ctx):
     check_batch(ctx, sorted(set(progs)), "gen")
     files = repo_files(ctx, 6 if quick else 80)
     check_batch(ctx, files, "files")
-    ctx.note("FIXP=%s (f-string prefix pattern of the model)" % FIXP)
+    ctx.note("model variant: FIXP=%s FIXE=%s" % (FIXP, FIXE))
 
 
 def replay(ctx, obj):
